@@ -348,6 +348,7 @@ RETCODE adfCreateHdHeader ( struct AdfDevice * const               dev,
 
     /* FSHD */
 
+    memset ( &fshd, 0, sizeof(struct bFSHDblock) );
     memcpy ( fshd.dosType, "DOS", 3 );
     fshd.dosType[3] = (char) partList[0]->volType;
     fshd.next = -1;
@@ -358,6 +359,7 @@ RETCODE adfCreateHdHeader ( struct AdfDevice * const               dev,
     j++;
 	
     /* LSEG */
+    memset ( &lseg, 0, sizeof(struct bLSEGblock) );
     lseg.next = -1;
 
     return adfWriteLSEGblock ( dev, j, &lseg );
